@@ -17,6 +17,25 @@ pub fn b_col_index(which: u8) {
     let cols = nd::usize_();
     let rows = nd::usize_();
     let idx = nd::usize_();
+    if cols >= 1 && cols.checked_mul(rows).is_some() && (cols > 64 || rows > 64) {
+        // a witness that only exists for astronomically large shapes: zero-sized elements make such an
+        // array constructible (vec![(); n] allocates nothing); only "returns instead of panicking" can
+        // be judged, element addresses are all equal
+        let mut t: TooDee<()> = TooDee::from_vec(cols, rows, vec![(); cols * rows]);
+        nd::assume(idx >= rows);
+        if which == 0 {
+            let c = t.col(0);
+            let _ = &c[idx];
+        } else if which == 1 {
+            let c = t.col_mut(0);
+            let _ = &c[idx];
+        } else {
+            let mut c = t.col_mut(0);
+            let _ = &mut c[idx];
+        }
+        returned!();
+        return;
+    }
     nd::assume(cols >= 1 && cols <= 64 && rows <= 64);
     let mut t = if rows == 0 { TooDee::default() } else { TooDee::from_vec(cols, rows, grid(cols, rows)) };
     if rows == 0 {
@@ -127,9 +146,25 @@ pub fn b_view(parent: u8) {
     let stride = nd::usize_();
     let s = (nd::usize_(), nd::usize_());
     let e = (nd::usize_(), nd::usize_());
-    nd::assume(cols <= 64 && rows <= 64 && stride <= 64 && cols <= stride && (cols == 0) == (rows == 0));
     let stride = if parent == 0 { cols } else { stride };
     let valid = s.0 <= e.0 && s.1 <= e.1 && e.0 <= cols && e.1 <= rows;
+    if cols > 64 || rows > 64 || stride > 64 {
+        // astronomically large parent: only constructible with zero-sized elements
+        nd::assume(cols <= stride && (cols == 0) == (rows == 0) && stride.checked_mul(rows).is_some());
+        let buf: Vec<()> = vec![(); stride * rows];
+        let p = TooDeeView::new(stride, rows, &buf);
+        let v0 = p.view((0, 0), (cols, rows));
+        let v = v0.view(s, e);
+        if !valid {
+            returned!();
+            return;
+        }
+        let (w, h) = (e.0 - s.0, e.1 - s.1);
+        assert!(v.size() == if w == 0 || h == 0 { (0, 0) } else { (w, h) }, "ORACLE: view size");
+        end_reached!();
+        return;
+    }
+    nd::assume(cols <= 64 && rows <= 64 && stride <= 64 && cols <= stride && (cols == 0) == (rows == 0));
     let buf = grid(stride.max(1), rows.max(1));
     let base = buf.as_ptr();
     let p = TooDeeView::new(stride, rows, &buf[..stride * rows]);
@@ -281,8 +316,12 @@ pub fn b_cursor(ty: u8, meth: u8) {
     let skip = nd::usize_();
     let items = nd::usize_();
     let n = nd::usize_();
-    nd::assume(cols >= 1 && cols <= 64 && skip <= 64 && items <= 64);
     let is_col = ty >= 2;
+    if cols > 64 || skip > 64 || items > 64 {
+        b_cursor_huge(ty, meth, cols, skip, items, n);
+        return;
+    }
+    nd::assume(cols >= 1 && cols <= 64 && skip <= 64 && items <= 64);
     // rows iterators: window `cols` wide in a parent `cols+skip` wide; column iterators: stride skip+1
     let stride = if is_col { skip + 1 } else { cols + skip };
     let width = if is_col { 1 } else { cols };
@@ -359,6 +398,42 @@ pub fn b_swap_rows(recv: u8) {
             let src = if x >= cols { y } else if y == r1 { r2 } else if y == r2 { r1 } else { y };
             assert!(buf[y * stride + x] == old[src * stride + x], "ORACLE: swap_rows changed a cell it must not, or did not exchange the rows");
         }
+    }
+    end_reached!();
+}
+
+/// The cursor step on an astronomically large shape (zero-sized elements): Some/None and the remaining
+/// length are judged, element addresses are all equal.
+fn b_cursor_huge(ty: u8, meth: u8, cols: usize, skip: usize, items: usize, n: usize) {
+    let is_col = ty >= 2;
+    let stride = if is_col { skip.checked_add(1) } else { cols.checked_add(skip) };
+    nd::assume(cols >= 1 && items >= 1 && stride.is_some() && stride.unwrap().checked_mul(items).is_some());
+    let stride = stride.unwrap();
+    let width = if is_col { 1 } else { cols };
+    let mut t: TooDee<()> = TooDee::from_vec(stride, items, vec![(); stride * items]);
+    let mut v = t.view_mut((0, 0), (width, items));
+    let (expect_some, remaining) = match meth {
+        0 | 1 => (true, items - 1),
+        2 | 3 => (n < items, if n < items { items - n - 1 } else { 0 }),
+        _ => (false, items),
+    };
+    macro_rules! drive {
+        ($it:expr) => {{
+            let mut it = $it;
+            if meth == 4 {
+                assert!(it.size_hint() == (items, Some(items)), "ORACLE: size_hint differs from the ideal sequence");
+            } else {
+                let got = match meth { 0 => it.next().is_some(), 1 => it.next_back().is_some(), 2 => it.nth(n).is_some(), _ => it.nth_back(n).is_some() };
+                assert!(got == expect_some, "ORACLE: cursor step Some/None differs from the ideal sequence");
+                assert!(it.len() == remaining, "ORACLE: remaining length after the step differs from the ideal sequence");
+            }
+        }};
+    }
+    match ty {
+        0 => drive!(v.rows()),
+        1 => drive!(v.rows_mut()),
+        2 => drive!(v.col(0)),
+        _ => drive!(v.col_mut(0)),
     }
     end_reached!();
 }
